@@ -1991,6 +1991,33 @@ impl Sessions {
         session
     }
 
+    /// Find the session **and** the exchange which an already decoded RX packet belongs to.
+    ///
+    /// Unlike [`Sessions::get_for_rx`] followed by [`Session::get_exch_for_rx`], this keeps
+    /// looking when the first session matching the packet does not own the exchange:
+    /// every received group data message gets its own ephemeral RX group session
+    /// (see `Sessions::get_or_create_for_group_rx`), so several sessions of one sender
+    /// can match the very same plain header at a time.
+    pub(crate) fn get_exch_for_rx(
+        &mut self,
+        rx_peer: &Address,
+        rx_plain: &PlainHdr,
+        rx_proto: &ProtoHdr,
+    ) -> Option<(&mut Session, usize)> {
+        let (session, exch_index) = self.sessions.iter_mut().find_map(|sess| {
+            if sess.is_for_rx(rx_peer, rx_plain) {
+                sess.get_exch_for_rx(rx_proto)
+                    .map(|exch_index| (sess, exch_index))
+            } else {
+                None
+            }
+        })?;
+
+        session.update_last_used();
+
+        Some((session, exch_index))
+    }
+
     pub(crate) fn get_for_tx(&mut self, session_id: u32) -> Option<&mut Session> {
         let mut session = self
             .sessions
